@@ -1,6 +1,10 @@
 package c02
 
 import (
+	"encoding/json"
+	"os"
+	"path/filepath"
+	"strings"
 	"testing"
 
 	"verifharness/vt"
@@ -8,3 +12,60 @@ import (
 
 func TestProp(t *testing.T)   { vt.RunAll(t, 30) }
 func TestReplay(t *testing.T) { vt.ReplayAll(t) }
+
+// TestKnownFindings re-confirms the listed finding KnownResetRUB from its recorded case (a reset op on a node that
+// removes untraceable blocks, which the generator does not draw while the finding is listed).
+func TestKnownFindings(t *testing.T) {
+	if !vt.Known(KnownResetRUB) {
+		t.Logf("%s: not listed as known: TestProp generates the shape itself", KnownResetRUB)
+		return
+	}
+	root := os.Getenv("VERIF_ROOT")
+	if root == "" {
+		root = "/verif"
+	}
+	raw, err := os.ReadFile(filepath.Join(root, "replays", "C02", "known", KnownResetRUB+".json"))
+	if err != nil {
+		t.Logf("%s: %v", KnownResetRUB, err)
+		return
+	}
+	var env struct {
+		Case Case `json:"case"`
+	}
+	if err := json.Unmarshal(raw, &env); err != nil {
+		t.Fatal(err)
+	}
+	var cerr error
+	func() {
+		defer func() {
+			if r := recover(); r != nil {
+				cerr = &panicErr{r}
+			}
+		}()
+		cerr = checkCase(env.Case, &vt.Obs{})
+	}()
+	if cerr == nil {
+		t.Logf("%s: the recorded case no longer fails", KnownResetRUB)
+		return
+	}
+	s := cerr.Error()
+	if i := strings.IndexByte(s, '\n'); i >= 0 {
+		s = s[:i]
+	}
+	if len(s) > 500 {
+		s = s[:500] + "..."
+	}
+	vt.KnownFinding(KnownResetRUB, s)
+}
+
+type panicErr struct{ v any }
+
+func (p *panicErr) Error() string {
+	if e, ok := p.v.(error); ok {
+		return "PANIC: " + e.Error()
+	}
+	if s, ok := p.v.(string); ok {
+		return "PANIC: " + s
+	}
+	return "PANIC"
+}
